@@ -9,7 +9,7 @@
    Two recorded counterexamples show that the hypothesis is not always met by the real parser. *)
 From Coq Require Import String.
 From DepsDev Require Import Lib.Base Semver.Version Semver.Compare Semver.Span Semver.Interval Semver.Set Semver.Constraint
-     Semver.C11_proofs Semver.Witness Semver.C11_witness.
+     Semver.C11_proofs Semver.Witness Semver.C11_witness Semver.C11_region.
 Local Open Scope Z_scope.
 
 (* printing a span and parsing the text gives back the span (with re-read bounds), which prints
@@ -33,6 +33,23 @@ Theorem C11_reparse_partial : forall pv S (c : constraint) (l' : list span),
     forall v, sys_eqb (v_sys v) SPyPI = false -> match_version_prerelease c' v = match_version_prerelease c v.
 Proof. exact set_round_trip. Qed.
 Print Assumptions C11_reparse_partial.
+
+(* the same with a hypothesis that can be COMPUTED: set_ok_b checks, bound by bound, that the
+   parser answers the canonical text of the bound with a version that has the same system,
+   numbers, prerelease elements and canonical text and no extension object.  The harness
+   evaluates c11_region on every generated set, reports the share inside, and treats a failed
+   round trip inside the region as a contradiction between model and theorem. *)
+Theorem C11_reparse_checked : forall pv S (c : constraint) (l' : list span),
+  set_span (c_set c) <> [] -> set_ok_b pv S (set_span (c_set c)) = Some l' ->
+  exists str c', set_string (c_set c) = Ok str /\ parse_set_constraint pv S str = Ok c' /\
+    set_string (c_set c') = Ok str /\
+    forall v, sys_eqb (v_sys v) SPyPI = false -> match_version_prerelease c' v = match_version_prerelease c v.
+Proof. exact set_round_trip_checked. Qed.
+Print Assumptions C11_reparse_checked.
+
+Theorem C11_region_sound : forall pv S l l', set_ok_b pv S l = Some l' -> Forall2 (span_ok pv S) l l'.
+Proof. exact set_ok_b_sound. Qed.
+Print Assumptions C11_region_sound.
 
 (* the hypothesis is met, for instance, by ^1.2.0 = {[1.2.0:1.inf.inf]} *)
 Example C11_hypothesis_inhabited :
